@@ -51,7 +51,9 @@ PROPS = {
     },
     "C17": {
         "trusted": [
-            "SCOPE (partial claim): the theorems cover the component proofs (four Gennaro proofs, representation proof, range proof arithmetic, OR-composition, Fiat-Shamir input); the composed proof tree (exp.go, primeproof.go, issquareproof.go, top of validkeyproof.go) is NOT modelled: whole-proof ops are checked against by-construction labels only (the Lean side answers with the specification verdict)",
+            "SCOPE (partial claim): the theorems cover (1) the component proofs (four Gennaro proofs, representation proof, range proof arithmetic, OR-composition, Fiat-Shamir input) and (2) the STRUCTURE (wiring) of the composed proof tree: GabiModel/KeyProofTree.lean mirrors NewValidKeyProofStructure and the constructors of primeproof.go, exp.go, expstep*.go, multiplicationproof.go, additionproof.go, pedersen.go, issquareproof.go field by field (names, bit lengths, range limits, every Lhs/Rhs contribution); the ref op kp-structure (and kp-substructure, kp-structure-full) compares a canonical dump of the real structure values (hook keyproof/verif_export_c17b.go) with the model's, and GabiProps/C17Tree.lean proves about the model which statement the tree wires together (both prime proofs, p=2p'+1, q=2q'+1, pq=N, one square claim per base; soundness of the wiring under the ideal reading: relations read in the exponent of g over the integers). The TRAVERSAL of the tree (commitmentsFromSecrets/commitmentsFromProof/buildProof of exp.go, primeproof.go, issquareproof.go, top of validkeyproof.go) is NOT modelled: whole-proof ops (kp-verify, kp-alter, kp-build-verify) are checked against by-construction labels only (the Lean side answers with the specification verdict); the representation agenproof/agenrange that primeproof.go builds on the fly from the hash of the prea commitment is not part of the stored structure and is not covered by kp-structure. That a structure is a VALUE (VerifyProof/BuildProof do not change it, one structure serves proofs under different group primes; the Exp helpers of the base lookups leave the caller's integers alone) is checked by kp-verify-reused-structure (child process; dump before and after every step) and the component op group-exp",
+            "the ideal reading of the structure tree (GabiProofs/KeyProofTree.lean: holds) takes the AND/OR composition of the sub-proofs from the code by inspection (OR: the two branches of an exponentiation step, aPlus1ResRep/aMin1ResRep) and reads relations over the integers; that accepted proofs make the relations hold over the integers (special soundness, range proofs, group size) is not proved",
+            "the dump hook walks the unexported structure fields with explicit field-by-field code (a field added to a structure later is not dumped until the hook is extended)",
             "statistical soundness bounds of the component proofs are not proved; 'reject' labels on bad moduli rely on them (error <= 2^-80 at the sizes generated)",
             "primality in the model (ProbablyPrime, safe-prime tests) is an executable Miller-Rabin oracle",
             "hooks keyproof/verif_export_c17.go export the unexported component functions; VerifChallengeSegments re-assembles the hash input with the package's own commitmentsFromProof functions and is tied to BuildProof by the challenge equality it is checked with",
